@@ -501,6 +501,47 @@ def _loop_form_batch(F, fn, batch_op):
     return True, ""
 
 
+def a1_elite_ranked_by_main_objective(F, r):
+    """the population's own elite is ranked by the MAIN objective: `Elitism::maybe_change` (which may switch a population to an alternative objective, meant for the network's
+    node storages) is never applied to the value stored into `Rosomaxa.elite` — otherwise `ranked().next()` is no longer the best individual ever offered"""
+    roso = [a for a in F.adts if a.endswith("population::rosomaxa::Rosomaxa")]
+    if len(roso) != 1:
+        raise AnchorError(f"Rosomaxa ADT resolves to {roso}")
+    n = 0
+    for fid, fn in sorted(F.fns.items()):
+        if "::promoted[" in fid or not fid.lstrip("<").startswith("rosomaxa::population::rosomaxa"):
+            continue
+        for bi, si, st in mir.stmts(fn):
+            rv = st["r"]
+            if rv["k"] != "agg" or not rv.get("n", "").startswith(roso[0] + "#") or "elite" not in (rv.get("fs") or []):
+                continue
+            n += 1
+            _, crossed = mir.deep_leaves(fn, rv["o"][rv["fs"].index("elite")])
+            todo = [c for c in crossed if c in F.fns]
+            seen = set()
+            hit = None
+            while todo:
+                c = todo.pop()
+                if c in seen:
+                    continue
+                seen.add(c)
+                for g in F.family(c):
+                    for _, t in mir.calls(F.fns[g]):
+                        tg = t.get("res") or t["callee"]
+                        if tg.endswith("Elitism::<O, S>::maybe_change") or tg.endswith("::maybe_change"):
+                            hit = (g, t)
+                        elif tg in F.fns and tg.startswith("rosomaxa::population") and len(seen) < 30:
+                            todo.append(tg)
+            inst = f"{util.short_fn(fid)}: elite"
+            if hit:
+                r.fail(inst, "the population's elite is built by a function that applies `maybe_change`: with an objective that has a real alternative the elite is sorted and truncated "
+                       "under the alternative ordering, so its first ranked individual is not the best one offered", F.loc(hit[0], hit[1]["ln"]))
+            else:
+                r.ok(inst, "built without maybe_change (ranked by the main objective)")
+    if n == 0:
+        raise AnchorError("no construction of Rosomaxa { elite, .. } found")
+
+
 def run(ctx):
     ctx.explanation = (
         "Finite-ordering evaluation (E-C) of the incumbent-replacement code over every abstract ordering of (best,new) and "
@@ -512,6 +553,7 @@ def run(ctx):
     ctx.assumptions += ["HeuristicObjective::total_order is a total preorder (C09)", "std Vec::sort_by/dedup_by/truncate contracts"]
     ctx.run("C08-O1", "incumbents are replaced only by no-worse individuals; no-worse individuals pass the elite filter (E-C over all orderings)", o1_incumbent, floor=7)
     ctx.run("C08-O2", "every offered individual reaches the comparison in every HeuristicPopulation::add_all/add impl", o2_every_offer_compared, floor=5)
+    ctx.run("C08-A1", "the elite of the self-organising population is ranked by the main objective (no maybe_change on it)", a1_elite_ranked_by_main_objective, floor=1)
     ctx.run("C08-O3", "Elitism: additions are followed by sort(total_order(a,b)) before any truncation; max size > 0", o3_elitism_order, floor=3)
     ctx.run("C08-O5", "decomposition merge never prefers a worse sub-solution (E-C over the three orderings)", o5_merge_best, floor=3)
     ctx.run("C08-S1", "sizes derived from float ratios in population code are clamped to at least one", s1_selection_size_clamped, floor=2)
